@@ -328,6 +328,9 @@ def _stream7(tier):
     # a built path (own buffer) is set anew from a text
     for els, text in ((["a"], "x.y"), (["ab", "", "c"], ""), (["q" * 300], "a..b"), (["a", "b"], "zz")):
         lines.append("g reuse 2e %s %s" % (fmt(els), hx(text)))
+    # ... also when the object was first used in binary length mode
+    for els, text in ((["a"], "x.y"), (["ab", "c"], "abc.de.f"), (["a", "b", "c"], "zz"), (["q" * 200], "a..b")):
+        lines.append("g reuse 2e %s %s b" % (fmt(els), hx(text)))
     for l1 in (254, 255, 256):
         for mode in ("s", "b"):
             lines.append("g rebuild %s 2e %s,%s,%s 1 %s" % (mode, hx("x" * l1), hx("ab"), hx("c"), hx("y" * (l1 - 1))))
@@ -374,6 +377,14 @@ def _stream8(tier, r):
                                          "g get 0 %s 2e" % hx("z"), "g get 0 %s 2e" % hx("c"), "g getp 0",
                                          "g set 0 %s 2e %s" % (hx("c.k"), hx("8")), "g del 0 %s 2e" % hx("z")]
             out.append(("empty:adv:%d" % k, lines + probes + ["g get - %s 2e" % hx(t) for t in ("x.a.z", "x.a", "b.z", "b.c.k", "a.z", "a.c.k", "c.z")] + ["g end"]))
+            k += 1
+    # views whose base is a binary length mode path: the same sub-tree as the view from the equivalent text path
+    for j, base in enumerate((["a"], ["a", "b"], ["a", "b", "c"], ["q", "r"], ["e"])):
+        for pre in preludes[:3]:
+            lines = ["g begin"] + pre + ["g bview %s" % ",".join(hx(e) for e in base), "g view %s 2e" % hx(".".join(base)),
+                     "g set 0 %s 2e %s" % (hx("z"), hx("7")), "g get 1 %s 2e" % hx("z"), "g get 0 %s 2e" % hx("z"), "g getp 0",
+                     "g set 1 %s 2e %s" % (hx("y.k"), hx("8")), "g get 0 %s 2e" % hx("y.k"), "g del 0 %s 2e" % hx("z"), "g delp 0 empty"]
+            out.append(("empty:bview:%d" % k, lines + probes + ["g end"]))
             k += 1
     for i in range(60 if tier == "quick" else 600):
         lines = list(head)
